@@ -91,6 +91,7 @@ class Evaluator:
         self.P = P
         self.b = budget or Budget()
         self.db = {}
+        self.stage = {}
         self.stats = {"rounds": {}, "neg_filtered": 0, "agg_empty": 0, "agg_nonempty": 0, "destruct_match": 0,
                       "destruct_fail": 0, "rule_fired": 0}
 
@@ -243,6 +244,8 @@ class Evaluator:
                     if add:
                         changed = True
                         self.db[n] |= add
+                        for t in add:
+                            self.stage[(n, t)] = rounds - 1     # Jacobi stage: 0 = derivable without the stratum's own relations
                     if "eqrel" in P.rels[n].quals and self._close_eqrel(n):
                         changed = True
                 if sum(len(s) for s in self.db.values()) > self.b.tuples:
